@@ -88,10 +88,12 @@ def run(tier):
         pmap.fold(rep, "len%d-%s" % (L, "+".join(f for f, _ in fmts)), n, res, "probe sequences of length %d x %d positions x %s x 5 extension sets" % (L, len(POS), "/".join(f for f, _ in fmts)))
     # length ladder: one plain-word fragment of each length in every position (formatted fragments cross the writers' internal buffer sizes)
     LONG = [b"w" * k for k in (60, 100, 127, 128, 200, 250, 255, 256, 257, 300, 511, 512, 513, 1000, 1023, 1024, 1025, 2047, 2048, 2049, 4100)]
+    # the same with multi-byte characters, shifted by 0..3 ASCII bytes so that a byte-count cut anywhere falls inside a character for some entry
+    LONG += [pre + ch * k for ch in ("\u00e9".encode(), "\u2020".encode(), "\U0001F600".encode()) for k in (30, 45, 70, 130, 300) for pre in (b"", b"a", b"ab", b"abc")]
     for fmts, arch in ((TEXTUAL, False), (ARCHIVES, True)):
         case, n = make_case(LONG, 1, fmts, arch)
         res = pmap.pmap(n, case, init_fn=mmd.init_worker, deadline_s=dl * 0.9)
-        pmap.fold(rep, "length-ladder-%s" % "+".join(f for f, _ in fmts), n, res, "one word of %d lengths (60..4100 bytes, around powers of two) x %d positions x %s x 5 extension sets" % (len(LONG), len(POS), "/".join(f for f, _ in fmts)))
+        pmap.fold(rep, "length-ladder-%s" % "+".join(f for f, _ in fmts), n, res, "one word of %d lengths/kinds (ASCII 60..4100 bytes around powers of two; runs of 2-, 3- and 4-byte characters at four byte offsets) x %d positions x %s x 5 extension sets" % (len(LONG), len(POS), "/".join(f for f, _ in fmts)))
     # empty components: every construct with its text, URL, title, label or value left empty
     EMPTY = [b"![alt]()\n", b"![alt](<>)\n", b"![](i.png)\n", b"![]()\n", b"![alt][r]\n\n[r]: <>\n", b"![alt](i.png \"\")\n", b"[text]()\n", b"[](http://u/)\n", b"[text](<>)\n", b"[text](u \"\")\n", b"[t][r]\n\n[r]: <> \"\"\n",
              b"#\n\ntext\n", b"# []\n", b"## ##\n", b"x[^f]\n\n[^f]:\n", b"x[^f]\n\n[^f]: \n", b"[>ab]:\n\nab\n", b"[?g]:\n\n[?g]\n", b"[#c]:\n\n[#c]\n", b"| |\n|-|\n| |\n", b"|a|\n|-|\n[]\n", b"term\n:\n", b"```\n```\n", b"``` \n\n```\n",
